@@ -22,6 +22,7 @@ Interpretation decisions (no false alarms):
    C07's own known finding.
 """
 import json
+import os
 import vlib
 
 LEVEL = "model_checking"
@@ -78,18 +79,18 @@ def compare_groups(ctx, name, path, variant_key):
 
 def run(ctx):
     q = ctx.quick
-    vlib.model_check(ctx, "MC_Binary.tla", "MC_Binary.cfg", workers=6, timeout=900)
+    if not os.environ.get("VERIF_DEV_SKIP_MODEL"):   # development only (mutation runs): the model stage does not depend on /repo
+        vlib.model_check(ctx, "MC_Binary.tla", "MC_Binary.cfg", workers=6, timeout=900)
     b = vlib.harness_bin("c31")
     prefix = ctx.path("trace")
-    rounds, docs, vectors, large = (2, 16, 30, 0) if q else (12, 80, 300, 200000)
+    rounds, docs, vectors, large = (1, 12, 20, 0) if q else (12, 80, 300, 200000)
     rc, out, wall = vlib.sh([b, "record", prefix, "seed=%d" % ctx.seed, "rounds=%d" % rounds, "docs=%d" % docs,
                              "vectors=%d" % vectors, "large=%d" % large], timeout=900)
     stats = json.loads(out.strip().splitlines()[-1])
     ctx.stage("record", wall, **stats)
     total = 0
     total += vlib.check_trace(ctx, "Trace_Binary.tla", "Trace.cfg", prefix + "-binary.ndjson", sig_binary,
-                              group_key=None, timeout=1200, selftest=True)
-    # context for a rejected binary event is the event itself
+                              group_key=lambda e: True, timeout=1200, selftest=True)   # every event stands alone
     total += vlib.check_trace(ctx, "Trace_BitVec.tla", "Trace.cfg", prefix + "-bitvec.ndjson", sig_generic("bitvec"),
                               group_key=is_build, timeout=1800, selftest=False)
     total += vlib.check_trace(ctx, "Trace_JsonDoc.tla", "Trace.cfg", prefix + "-jsondoc.ndjson", sig_generic("jsondoc"),
